@@ -159,6 +159,22 @@ def run(tier, seed, t0):
         cases.append({"kind": "presentations", "comp": c, "full": sum(c) <= NF, "k": sum(c) % 3})
     for c in R.compositions(NA):
         cases.append({"kind": "arrangements", "comp": c})
+    # the >=18-neutral regime beyond K: every composition with n0 >= 18 up to total NZ; thorough: up to 80 with minority <= 6
+    NZ = 32 if tier == "quick" else 50
+    extra = set()
+    for N in range(NK + 1, NZ + 1):
+        for z in range(18, N - 1):
+            for p in range(1, N - z):
+                extra.add((p, N - z - p, z))
+    if tier == "thorough":
+        for N in range(NZ + 1, 81):
+            for z in range(18, N - 1):
+                for m in range(1, 7):
+                    if N - z - m >= m:
+                        extra.add((m, N - z - m, z))
+                        extra.add((N - z - m, m, z))
+    for c in sorted(extra):
+        cases.append({"kind": "presentations", "comp": c, "full": False, "k": sum(c) % 3})
     cases.sort(key=lambda x: -cost(x["comp"]))
     nsh = 16 * 12
     shards = [cases[i::nsh] for i in range(nsh)]
@@ -167,10 +183,11 @@ def run(tier, seed, t0):
         PROP, tier, seed, acc, t0,
         rule="state = one composition (n+,n-,n0): every composition of total 1..%d, presented as blocks, reversed blocks, "
              "interleaved and two rotations (blocks+reversed only above total %d) in a rotating spelling that mixes K/R, D/E and "
-             "all 16 neutrals; plus every composition of total <=%d with ALL its arrangements. Per presentation: get_deltaMax() "
+             "all 16 neutrals; plus every composition with n0>=18 up to total %d (thorough: also minority charge <=6 up to total 80); plus "
+             "every composition of total <=%d with ALL its arrangements. Per presentation: get_deltaMax() "
              "must equal the exact-rational maximum over the documented family, get_deltaMax(True) must return that value and a "
              "rearrangement of the input whose get_delta() equals it; values must agree across presentations. non-trivial = "
-             "compositions with all three classes present; outcomes = distinct delta-max values" % (NK, NF, NA),
+             "compositions with all three classes present; outcomes = distinct delta-max values" % (NK, NF, NZ, NA),
         bounds={"K": NK, "full_presentations_upto": NF, "all_arrangements_upto": NA, "tolerance_abs": TOL},
         assumptions=["documented family re-derived in vmc/refmodel/charge.py:dmax_family; at a block-length tie in the "
                      "one-charge-type regime either reading of the statement is accepted"])
